@@ -390,3 +390,32 @@ MUTANTS += [
      "old": "if (capacity > (_producer->bounded_queue.capacity() >> 1))",
      "new": "if (capacity > (_producer->bounded_queue.capacity() >> 2))"},
 ]
+
+MUTANTS += [
+    {"id": "c13-revert-f6", "props": ["C13"], "file": "quill/backend/StringFromTime.h",
+     "desc": "%c rewrite removed again (finding F6 comes back)",
+     "old": '    _replace_all(_timestamp_format, "%c", "%a %b %e %H:%M:%S %Y");\n', "new": ""},
+    {"id": "c13-revert-f14", "props": ["C13"], "file": "quill/backend/TimestampFormatter.h",
+     "desc": "duplicate fractional specifier accepted again (finding F14 comes back)",
+     "old": "if (_time_format.find(specifier_name[i], specifier_begin + 1) != std::string::npos)",
+     "new": "if (false && _time_format.find(specifier_name[i], specifier_begin + 1) != std::string::npos)"},
+    {"id": "c11-revert-f15", "props": ["C11"], "file": "quill/std/Map.h",
+     "desc": "map elements encoded through Codec<pair<Key,T>> again (finding F15 comes back)",
+     "old": """        total_size += Codec<Key>::compute_encoded_size(conditional_arg_size_cache, elem.first);
+        total_size += Codec<T>::compute_encoded_size(conditional_arg_size_cache, elem.second);""",
+     "new": """        total_size += Codec<std::pair<Key, T>>::compute_encoded_size(conditional_arg_size_cache, elem);"""},
+    {"id": "c13-hours-ge-12", "props": ["C13"], "file": "quill/backend/StringFromTime.h",
+     "desc": "%I: hours > 12 -> >= 12 (noon hour rendered 00)",
+     "old": """        fmtquill::format_to(&_pre_formatted_ts[index.first], "{:02}",
+                            (hours == 0 ? 12 : (hours > 12 ? hours - 12 : hours)));""",
+     "new": """        fmtquill::format_to(&_pre_formatted_ts[index.first], "{:02}",
+                            (hours == 0 ? 12 : (hours >= 12 ? hours - 12 : hours)));"""},
+    {"id": "c13-quarter-hour-3600", "props": ["C13"], "file": "quill/backend/StringFromTime.h",
+     "desc": "local-time recalculation every hour instead of every quarter hour",
+     "old": "time_t const next_quarter_hour_ts = _nearest_quarter_hour_timestamp(timestamp) + 900;",
+     "new": "time_t const next_quarter_hour_ts = _nearest_quarter_hour_timestamp(timestamp) + 3600;"},
+    {"id": "c13-fallback-updates-cache", "props": ["C13"], "file": "quill/backend/StringFromTime.h",
+     "desc": "backward timestamp (fallback path) also moves the cached timestamp",
+     "old": "      _fallback_formatted = _safe_strftime(_timestamp_format.data(), timestamp, _time_zone).data();\n",
+     "new": "      _fallback_formatted = _safe_strftime(_timestamp_format.data(), timestamp, _time_zone).data();\n      _cached_timestamp = timestamp;\n"},
+]
